@@ -24,6 +24,77 @@ pub fn assumptions(_check: &str) -> Value {
     ])
 }
 
-pub fn determinism_main(_args: &[String]) -> i32 {
-    0
+/// `scsim determinism [--seeds N] [--seed BASE] [check ids...]`: every listed check is run twice on the
+/// same seeds, in different worker processes, at worker counts 4 and 16; the per-run event-log digests
+/// (abstract world, fault sites, clock reads, getrandom draws, verdict strings with digit runs masked,
+/// summaries, actor events, directory listings) must be identical.
+pub fn determinism_main(args: &[String]) -> i32 {
+    use crate::checks::Tier;
+    use crate::runner::{run_check, CheckArgs};
+    crate::install_quiet_panic_hook();
+    if let Err(e) = crate::seams::selftest() {
+        println!("HARNESS ERROR: {e}");
+        return 2;
+    }
+    let mut seeds: u64 = 2000;
+    let mut base: u64 = crate::runner::DEFAULT_SEED;
+    let mut tier = Tier::Quick;
+    let mut checks: Vec<String> = vec![];
+    let mut i = 2;
+    while i < args.len() {
+        match args[i].as_str() {
+            "--seeds" => {
+                seeds = args.get(i + 1).and_then(|s| s.parse().ok()).unwrap_or(seeds);
+                i += 1;
+            }
+            "--seed" => {
+                base = args.get(i + 1).and_then(|s| s.parse().ok()).unwrap_or(base);
+                i += 1;
+            }
+            "--tier" => {
+                if args.get(i + 1).map(|s| s == "thorough").unwrap_or(false) {
+                    tier = Tier::Thorough;
+                }
+                i += 1;
+            }
+            c => checks.push(c.to_string()),
+        }
+        i += 1;
+    }
+    if checks.is_empty() {
+        checks = ["C01", "C02", "C03", "C04", "C05", "C06", "C07", "C08", "C09", "C13", "C14", "C15", "C17", "C18"].iter().map(|s| s.to_string()).collect();
+    }
+    let mut bad = 0;
+    for c in &checks {
+        let n = if matches!(c.as_str(), "C06" | "C08") { (seeds / 100).max(4) } else if c == "C05" { (seeds / 20).max(8) } else { seeds };
+        let run = |workers: u64| {
+            run_check(&CheckArgs { check: c.clone(), tier, seed: base, runs: n, workers, keep_log: true, write_evidence: false })
+        };
+        let a = run(4);
+        let b = run(16);
+        let mut diff = vec![];
+        for (k, v) in &a.summary.log_digests {
+            if b.summary.log_digests.get(k) != Some(v) {
+                diff.push(*k);
+            }
+        }
+        let missing = a.summary.log_digests.len() != b.summary.log_digests.len();
+        println!(
+            "{c}: {} seeds x 2 executions (4 and 16 workers), {} evaluations each: {}",
+            n,
+            a.summary.evaluations,
+            if diff.is_empty() && !missing { "identical event logs".to_string() } else { format!("DIFFERENT at run indices {:?}", &diff[..diff.len().min(10)]) }
+        );
+        if !diff.is_empty() || missing {
+            bad += 1;
+        }
+    }
+    crate::exec::cleanup_process_scratch();
+    if bad > 0 {
+        println!("HARNESS ERROR: {bad} checks are not deterministic");
+        2
+    } else {
+        println!("deterministic: every seed replayed to the same event log");
+        0
+    }
 }
